@@ -7,6 +7,14 @@ setup = core.setup
 
 def run(chk, tier, seed):
     core.run_core(chk, "C10", tier, seed)
+    # f64 part: on the dyadic grid the binary64 evaluation of allocation_debt / the wake-up amount is exact and equals
+    # the rational model's value (Flocq; /verif/coq-float, theorems C09F_*)
+    from props import c09f
+    for name, ok, detail in c09f.obligations():
+        chk.obligation(name, ok, detail)
+    chk.trusted.append("f64 part (coq-float): binary64 arithmetic is modelled as exact real arithmetic followed by Flocq's "
+                       "round-to-nearest-even after every operation (overflow / NaN / infinities excluded by the grid bounds, "
+                       "not modelled); axioms (Coq standard library only): " + ", ".join(sorted(a for a in c09f.ALLOWED if "." in a and not a.startswith("Coq."))))
 
 
 def replay(path):
